@@ -1,10 +1,12 @@
 pub mod echo;
+pub mod sel;
 
 pub type LaneFn = fn(&str) -> String;
 
 pub fn find(name: &str) -> Option<LaneFn> {
     Some(match name {
         "echo" => echo::run,
+        "sel" => sel::run,
         _ => return None,
     })
 }
